@@ -15,6 +15,7 @@ name: dlist_map_set
 define: U_SET
 src: dlinked_list.c, linked_list.c, objpair.c, obj.c
 tier: B
+native: self
 backend: cadical
 unwind: 10
 unwind_thorough: 12
@@ -26,6 +27,7 @@ name: dlist_map_get
 define: U_GET
 src: dlinked_list.c, linked_list.c, objpair.c, obj.c
 tier: B
+native: self
 backend: cadical
 unwind: 10
 unwind_thorough: 12
@@ -37,6 +39,7 @@ name: dlist_map_remove
 define: U_REMOVE
 src: dlinked_list.c, linked_list.c, objpair.c, obj.c
 tier: B
+native: self
 backend: cadical
 unwind: 10
 unwind_thorough: 12
@@ -48,6 +51,7 @@ name: dlist_map_get_keys
 define: U_GET_KEYS
 src: dlinked_list.c, linked_list.c, objpair.c, obj.c
 tier: B
+native: self
 backend: cadical
 unwind: 10
 unwind_thorough: 12
@@ -59,6 +63,7 @@ name: dlist_map_get_pairs
 define: U_GET_PAIRS
 src: dlinked_list.c, linked_list.c, objpair.c, obj.c
 tier: B
+native: self
 backend: cadical
 unwind: 10
 unwind_thorough: 12
@@ -70,6 +75,7 @@ name: dlist_map_iterate
 define: U_ITERATE
 src: dlinked_list.c, linked_list.c, objpair.c, obj.c
 tier: B
+native: self
 backend: cadical
 unwind: 10
 unwind_thorough: 12
@@ -93,10 +99,11 @@ funcs: spif_dlinked_list_iterator, spif_dlinked_list_iterator_has_next, spif_dli
 
 #define LT spif_dlinked_list_t
 #define IT spif_dlinked_list_item_t
-#define BUILD(self, m) VL_BUILD_MAP(self, LT, IT, SPIF_MAPCLASS_VAR(dlinked_list), VL_DL, m, vl_pick_len())
+#define BUILD(self, m) do { VL_INPUTS(vin, a); VL_BUILD_MAP(self, LT, IT, SPIF_MAPCLASS_VAR(dlinked_list), VL_DL, m, vin); } while (0)
 #define CHECK(self, m, OP) VL_CHECK_MAP(self, IT, VL_DL, m, OP)
 
 vl_map_t m;             /* ideal dictionary */
+vl_in_t vin;            /* the built container's inputs (VND: replayable natively) */
 int w_n, w_k, w_v;
 
 /* result of get_keys / get_values: a linked_list of fresh velem copies with the given keys */
@@ -121,7 +128,7 @@ void harness(void)
 {
     LT self;
     spif_obj_t key, val, got;
-    int k = nondet_int(), v = nondet_int(), p, i;
+    int k = (int) VND(int, k), v = (int) VND(int, v), p, i;
     spif_bool_t b;
 
     BUILD(self, m);
@@ -173,11 +180,11 @@ void harness(void)
 #endif
 #ifdef U_GET_KEYS
     {
-        spif_linked_list_t in = nondet_bool() ? (spif_linked_list_t) NULL : spif_linked_list_new();
+        spif_linked_list_t in = VND(bool, c1) ? (spif_linked_list_t) NULL : spif_linked_list_new();
         spif_linked_list_t out = (spif_linked_list_t) spif_dlinked_list_get_keys(self, (spif_list_t) in);
         __CPROVER_assert(out != NULL && (in == NULL || out == in), "dlist map get_keys: returns the list passed in, or a new one");
         if (out != NULL) check_velem_list(out, m.k, m.len, self, 0);
-        in = nondet_bool() ? (spif_linked_list_t) NULL : spif_linked_list_new();
+        in = VND(bool, c2) ? (spif_linked_list_t) NULL : spif_linked_list_new();
         out = (spif_linked_list_t) spif_dlinked_list_get_values(self, (spif_list_t) in);
         __CPROVER_assert(out != NULL && (in == NULL || out == in), "dlist map get_values: returns the list passed in, or a new one");
         if (out != NULL) check_velem_list(out, m.v, m.len, self, 1);
@@ -186,7 +193,7 @@ void harness(void)
 #endif
 #ifdef U_GET_PAIRS
     {
-        spif_linked_list_t in = nondet_bool() ? (spif_linked_list_t) NULL : spif_linked_list_new();
+        spif_linked_list_t in = VND(bool, c3) ? (spif_linked_list_t) NULL : spif_linked_list_new();
         spif_linked_list_t out = (spif_linked_list_t) spif_dlinked_list_get_pairs(self, (spif_list_t) in);
         spif_linked_list_item_t c; spif_dlinked_list_item_t mc;
         __CPROVER_assert(out != NULL && (in == NULL || out == in), "dlist map get_pairs: returns the list passed in, or a new one");
